@@ -1333,3 +1333,220 @@ Proof.
       by (rewrite S_INR; unfold Rdiv; ring).
     lra.
 Qed.
+
+(* ================================================================== per-sample signals *)
+Lemma rsum_app a b : rsum (a ++ b) = rsum a + rsum b.
+Proof. induction a as [|x a IH]; cbn [app rsum]; [lra|rewrite IH; lra]. Qed.
+Lemma ov_reduce_opt_sum l : ov (reduce_opt RN RSum l) = rsum l.
+Proof. destruct l as [|x l]; [reflexivity|]. unfold reduce_opt. cbn [ov]. apply reduce_sum. Qed.
+Lemma combine_map2 {A B C D} (f : A -> C) (g : B -> D) l1 l2 :
+  combine (map f l1) (map g l2) = map (fun z => (f (fst z), g (snd z))) (combine l1 l2).
+Proof. revert l2. induction l1 as [|x l1 IH]; intros [|y l2]; cbn [map combine]; try reflexivity. rewrite IH. reflexivity. Qed.
+Lemma pick_combine {A} (f : T RN -> bool) (phi : A * T RN -> T RN) : forall (l : list A) (sv : list (T RN)),
+  pick RN f sv (map phi (combine l sv)) = map phi (filter (fun z => f (snd z)) (combine l sv)).
+Proof.
+  induction l as [|x l IH]; intros [|s sv]; cbn [combine map pick filter snd]; try reflexivity.
+  destruct (f s); cbn [map]; rewrite IH; reflexivity.
+Qed.
+Lemma isneg_nonneg s : ltb RN s (zero RN) = negb (nonneg RN s).
+Proof. unfold nonneg, geb. rn_simpl. rcases; try reflexivity; lra. Qed.
+Lemma split_sum {A} (phi : A * T RN -> R) (Z : list (A * T RN)) :
+  rsum (map phi (filter (fun z => nonneg RN (snd z)) Z)) - rsum (map phi (filter (fun z => ltb RN (snd z) (zero RN)) Z))
+  = rsum (map (fun z => sgn (snd z) * phi z) Z).
+Proof.
+  induction Z as [|z Z IH]; cbn [filter map rsum]; [lra|].
+  rewrite isneg_nonneg, <- IH. unfold sgn. change (@snd A R z) with (@snd A (T RN) z).
+  destruct (nonneg RN (snd z)); cbn [negb map rsum]; lra.
+Qed.
+
+Section Tensor.
+Variable c : config RN.
+Variable k : nat.
+Local Notation fp := (fun s => fst (partials RN c k s)).
+Local Notation sp := (fun s => snd (partials RN c k s)).
+
+(* one trainer call with a per-sample signal, sum reduction: every sample contributes with its own signal *)
+Lemma forward_tensor_net sv g ss : c_red RN c = RSum ->
+  net (forward RN c k (SigTensor RN sv g) ss)
+  = rsum (map (fun z => sgn (c_lr_post RN c) * (sgn (snd z) * (fp (fst z) * Rabs (snd z * g)))
+                        + sgn (c_lr_pre RN c) * (sgn (snd z) * (sp (fst z) * Rabs (snd z * g)))) (combine ss sv)).
+Proof.
+  intros Hr. unfold forward. rewrite Hr.
+  set (phi1 := fun z : sstate RN * T RN => fp (fst z) * Rabs (snd z * g)).
+  set (phi2 := fun z : sstate RN * T RN => sp (fst z) * Rabs (snd z * g)).
+  assert (E1 : map (fun xs : T RN * T RN => mul RN (fst xs) (snd xs))
+                 (combine (map fst (map (partials RN c k) ss)) (map (fun s : T RN => abs RN (mul RN s g)) sv))
+               = map phi1 (combine ss sv)).
+  { rewrite map_map, combine_map2, map_map. reflexivity. }
+  assert (E2 : map (fun xs : T RN * T RN => mul RN (fst xs) (snd xs))
+                 (combine (map snd (map (partials RN c k) ss)) (map (fun s : T RN => abs RN (mul RN s g)) sv))
+               = map phi2 (combine ss sv)).
+  { rewrite map_map, combine_map2, map_map. reflexivity. }
+  rewrite E1, E2, !pick_combine.
+  pose proof (split_sum phi1 (combine ss sv)) as S1. pose proof (split_sum phi2 (combine ss sv)) as S2.
+  rewrite (rsum_lin _ _ (fun z => sgn (snd z) * phi1 z) (fun z => sgn (snd z) * phi2 z)), <- S1, <- S2.
+  unfold sgn at 1 2. unfold net.
+  destruct (nonneg RN (c_lr_post RN c)), (nonneg RN (c_lr_pre RN c)); cbn [fst snd];
+    rewrite !ov_reduce_opt_sum, !rsum_app; rn_simpl; lra.
+Qed.
+End Tensor.
+
+Section BatchRunPS.
+Variable c : config RN.
+Variable k : nat.
+Variable B : nat.
+Hypothesis Hr : c_red RN c = RSum.
+
+Definition sig_ok (sg : signal RN) : Prop := match sg with SigTensor _ sv _ => length sv = B | _ => True end.
+
+(* one trainer call, sum reduction, any kind of signal: the sum over the samples of what the trainer would do with that
+   sample alone and its own signal *)
+Lemma forward_sum_ps sg ss : sig_ok sg -> length ss = B ->
+  net (forward RN c k sg ss)
+  = sum_steps B (fun b => net (forward RN c k (signal_of_sample b sg) [nth b ss (s_init RN)])).
+Proof.
+  intros Hs Hl. destruct sg as [|sv g|sv g].
+  - rewrite (forward_batch_sum c k (SigNone RN) ss Hr I), (rsum_nth _ (s_init RN)), Hl. reflexivity.
+  - rewrite (forward_batch_sum c k (SigScalar RN sv g) ss Hr I), (rsum_nth _ (s_init RN)), Hl. reflexivity.
+  - unfold sig_ok in Hs. rewrite (forward_tensor_net c k sv g ss Hr).
+    rewrite (rsum_nth _ (s_init RN, 0)), combine_length, Hl, Hs, Nat.min_id.
+    apply sum_steps_ext. intros b Hb. rewrite combine_nth by (rewrite Hl; symmetry; exact Hs). cbn [signal_of_sample].
+    rewrite (forward_tensor_net c k [nth b sv 0] g [nth b ss (s_init RN)] Hr). cbn [combine map rsum fst snd]. rn_simpl. lra.
+Qed.
+
+Definition col_ps (b : nat) (inps : list (list (bool * bool) * signal RN)) : list (list (bool * bool) * signal RN) :=
+  map (fun i => ([nth b (fst i) (false, false)], signal_of_sample b (snd i))) inps.
+
+Lemma run_batch_ps : forall inps ss, length ss = B -> inputs_ok_ps B inps ->
+  sum_net (run RN c k ss inps)
+  = sum_steps B (fun b => sum_net (run RN c k [nth b ss (s_init RN)] (col_ps b inps))).
+Proof.
+  induction inps as [|i tl IH]; intros ss Hl Hok.
+  - cbn [run col_ps map sum_net]. rewrite sum_steps_zero. reflexivity.
+  - apply Forall_cons_iff in Hok. destruct Hok as [[Hli Hsg] Hok'].
+    cbn [run]. unfold step at 1. cbn [fst snd sum_net].
+    set (ss' := map _ (combine ss (fst i))).
+    assert (Hl' : length ss' = B) by (unfold ss'; rewrite map_length, combine_length; lia).
+    rewrite (IH ss' Hl' Hok'), (forward_sum_ps (snd i) ss' Hsg Hl').
+    rewrite <- sum_steps_plus. apply sum_steps_ext. intros b Hb.
+    cbn [col_ps map run]. unfold step. cbn [fst snd combine map sum_net].
+    unfold ss'. rewrite (nth_observe c k B) by (try lia; exact Hb). reflexivity.
+Qed.
+End BatchRunPS.
+
+Lemma col_ps_sample b inps : col_ps b inps = inps1 (sample_ps b inps).
+Proof. unfold col_ps, inps1, sample_ps. rewrite map_map. reflexivity. Qed.
+
+(* sum reduction, scalar or PER-SAMPLE signals: the weight change of the batch is the sum over the samples of the
+   weight change of that sample alone with its own signal *)
+Theorem batch_reduction_sum_persample c k B inps :
+  c_red RN c = RSum -> inputs_ok_ps B inps ->
+  weight_change_batch c k B inps = sum_steps B (fun b => weight_change c k (sample_ps b inps)).
+Proof.
+  intros Hr Hok. unfold weight_change_batch, weight_change. rewrite weight_change_sum.
+  rewrite (run_batch_ps c k B Hr inps (init_batch RN B) (repeat_length _ _) Hok).
+  apply sum_steps_ext. intros b Hb. rewrite weight_change_sum, nth_init_batch, col_ps_sample. reflexivity.
+Qed.
+
+(* a one-sample batch with a per-sample signal behaves like a scalar signal (sum reduction), for the trainers whose
+   partial updates carry the factor |eta| *)
+Lemma sgn_sgn_abs x s g u : sgn x * (sgn s * (Rabs x * u * Rabs (s * g))) = x * (s * Rabs g) * u.
+Proof.
+  rewrite Rabs_mult.
+  transitivity ((sgn x * Rabs x) * (sgn s * Rabs s) * Rabs g * u); [ring|]. rewrite !sgn_abs. ring.
+Qed.
+Lemma net_tensor1_scalar c k s g st u v : c_red RN c = RSum ->
+  partials RN c k st = (Rabs (c_lr_post RN c) * u, Rabs (c_lr_pre RN c) * v) ->
+  net (forward RN c k (SigTensor RN [s] g) [st]) = net (forward RN c k (SigScalar RN s g) [st]).
+Proof.
+  intros Hr Hp. rewrite (forward_tensor_net c k [s] g [st] Hr), net_forward_scalar. cbn [combine map rsum fst snd].
+  rewrite Hp. cbn [fst snd]. rewrite !sgn_sgn_abs.
+  transitivity (u * (sgn (c_lr_post RN c * s) * (Rabs (c_lr_post RN c) * Rabs (s * g)))
+                + v * (sgn (c_lr_pre RN c * s) * (Rabs (c_lr_pre RN c) * Rabs (s * g)))); [|ring].
+  rewrite !sgn_mul_abs. ring.
+Qed.
+
+Lemma withsig_ps_snoc hx x :
+  withsig_ps (hx ++ [x]) = withsig_ps hx ++ [(fst x, SigTensor RN [fst (snd x)] (snd (snd x)))].
+Proof. unfold withsig_ps. rewrite map_app. reflexivity. Qed.
+Lemma withsig_ps_fst hx : map fst (withsig_ps hx) = map fst hx.
+Proof. unfold withsig_ps. rewrite map_map. reflexivity. Qed.
+
+Section PerSample.
+Variable c : config RN.
+Variable k : nat.
+Hypothesis G : grid_ok c k.
+Hypothesis Hr : c_red RN c = RSum.
+Hypothesis Ht : c_trainer RN c = MSTDP \/ c_trainer RN c = MSTDPET.
+
+Lemma partials_abs_form h0 pq : exists u v,
+  partials RN c k (state_of c k (rev (h0 ++ [pq]))) = (Rabs (c_lr_post RN c) * u, Rabs (c_lr_pre RN c) * v).
+Proof.
+  destruct Ht as [E | E].
+  - pose proof (partials_stdp c k (grid_syn c k G) (grid_pre c k G) h0 pq (or_intror (or_introl E))) as Hp.
+    cbv zeta in Hp. rewrite Hp. eexists. eexists. f_equal; rewrite <- Rmult_assoc, (Rmult_comm (b2r _)), Rmult_assoc; reflexivity.
+  - destruct (elig_state c k G E h0 pq) as [E1 E2]. cbv zeta in E1, E2.
+    unfold partials. rewrite E. rn_simpl. rewrite E1, E2. eexists. eexists. reflexivity.
+Qed.
+
+Lemma persample_eq_scalar hx :
+  sum_net (outs_from c k [] (withsig_ps hx)) = sum_net (outs_from c k [] (withsig hx)).
+Proof.
+  induction hx as [|x hx IH] using rev_ind; [reflexivity|].
+  rewrite withsig_ps_snoc, withsig_snoc, !outs_from_snoc0, !sum_net_app, IH. f_equal. cbn [sum_net snd]. f_equal.
+  rewrite !(map_app fst), withsig_ps_fst, withsig_fst. cbn [map fst].
+  destruct (partials_abs_form (map fst hx) (fst x)) as (u & v & Hp).
+  apply (net_tensor1_scalar c k _ _ _ u v Hr Hp).
+Qed.
+End PerSample.
+
+(* MSTDP / MSTDPET with a per-sample signal on one sample = the scalar-signal statements *)
+Theorem persample_signal_is_scalar c k hx :
+  c_trainer RN c = MSTDP \/ c_trainer RN c = MSTDPET -> c_red RN c = RSum -> grid_ok c k ->
+  weight_change c k (withsig_ps hx) = weight_change c k (withsig hx).
+Proof.
+  intros Ht Hr G. unfold weight_change. rewrite !weight_change_sum, !run_single. apply persample_eq_scalar; assumption.
+Qed.
+
+(* ================================================================== pair sums of a batch *)
+Lemma sample_nosig_batch b steps : sample b (nosig_batch steps) = nosig (hist_of b steps).
+Proof. unfold sample, nosig_batch, nosig, hist_of. rewrite !map_map. reflexivity. Qed.
+Lemma inputs_ok_nosig B steps : Forall (fun pqs => length pqs = B) steps -> inputs_ok B (nosig_batch steps).
+Proof.
+  intros H. unfold inputs_ok, nosig_batch. rewrite Forall_map. eapply Forall_impl; [|exact H].
+  intros pqs Hl. cbn. split; [exact I|exact Hl].
+Qed.
+(* STDP on a batch: the configured reduction (sum / mean) of the per-sample sums over spike pairs *)
+Theorem stdp_batch_pairsum c k B steps :
+  c_trainer RN c = STDP \/ c_trainer RN c = StableSTDP -> grid_ok c k ->
+  Forall (fun pqs => length pqs = B) steps ->
+  let per_sample b :=
+    c_lr_post RN c * pairsum (c_mode RN c) (c_dt RN c) (c_tc_pre RN c) (fun _ => 1)
+                             (post_train (hist_of b steps)) (pre_train c k (hist_of b steps))
+    + c_lr_pre RN c * pairsum (c_mode RN c) (c_dt RN c) (c_tc_post RN c) (fun _ => 1)
+                              (pre_train c k (hist_of b steps)) (post_train (hist_of b steps)) in
+  (c_red RN c = RSum -> weight_change_batch c k B (nosig_batch steps) = sum_steps B per_sample) /\
+  (c_red RN c = RMean -> (0 < B)%nat ->
+   weight_change_batch c k B (nosig_batch steps) = sum_steps B per_sample / INR B).
+Proof.
+  intros Ht G Hl per_sample. split.
+  - intros Hr. rewrite (batch_reduction_sum c k B _ Hr (inputs_ok_nosig B steps Hl)).
+    apply sum_steps_ext. intros b _. rewrite sample_nosig_batch. apply stdp_pairsum; assumption.
+  - intros Hr HB. rewrite (batch_reduction_mean c k B _ Hr HB (inputs_ok_nosig B steps Hl)). f_equal.
+    apply sum_steps_ext. intros b _. rewrite sample_nosig_batch. apply stdp_pairsum; assumption.
+Qed.
+
+(* the delayed and the delay-frozen modes also agree for the triplet trainers and for MSTDP *)
+Theorem triplet_delayed_modes_agree c k h :
+  c_trainer RN c = TripletSTDP \/ c_trainer RN c = StableTripletSTDP ->
+  c_lr_post RN c <> 0 -> c_lr_pre RN c <> 0 -> grid_ok c k ->
+  weight_change (set_delayed c true) k (nosig h) = weight_change (set_delayed c false) k (nosig h).
+Proof.
+  intros Ht H1 H2 G. rewrite !triplet_factor by (try exact Ht; try exact G; assumption). reflexivity.
+Qed.
+Theorem mstdp_delayed_modes_agree c k hx :
+  c_trainer RN c = MSTDP -> grid_ok c k ->
+  weight_change (set_delayed c true) k (withsig hx) = weight_change (set_delayed c false) k (withsig hx).
+Proof.
+  intros Ht G. rewrite (mstdp_scaled (set_delayed c true) k G Ht), (mstdp_scaled (set_delayed c false) k G Ht). reflexivity.
+Qed.
